@@ -86,7 +86,7 @@ def run(chk):
         for a in cd["app"]:
             a[1] = min(a[1], 3000)
         cd["mss"] = rng.choice([None, 64, 200, 1460])
-        jobs.append(dict(conns=[cd]))
+        jobs.append(dict(conns=[cd], tsjitter=rng.choice([0, 0, rng.randrange(1, 1 << 30)])))
     # cuts inside reordered / duplicated flights
     for st in [(1, 2), (2, 1, 1)]:
         bl = c05.gen_behaviours(chk, st, dict(MaxHeld="2", MaxDup="1"), 10 if quick else 60, seed=chk.seed)
